@@ -18,7 +18,9 @@ import (
 	dtlshandshake "github.com/pion/dtls/v3/internal/handshake"
 	"github.com/pion/dtls/v3/internal/zzverif/lib/pbt"
 	"github.com/pion/dtls/v3/internal/zzverif/lib/scen"
+	"github.com/pion/dtls/v3/pkg/protocol"
 	"github.com/pion/dtls/v3/pkg/protocol/handshake"
+	"github.com/pion/dtls/v3/pkg/protocol/recordlayer"
 	"pgregory.net/rapid"
 )
 
@@ -43,10 +45,13 @@ type Case struct {
 	// (0 other content and length, 1 same length other content, 2 proper prefix, 3 one bit flipped)
 	PSKSuite uint16 `json:"psksuite,omitempty"`
 	WrongPSK int    `json:"wrongpsk,omitempty"`
+	// UName: the honest client wants the server "db_primary.server.test" (an underscore: not an RFC 1123 host
+	// name, but what x509 matches against DNS SANs); the genuine server holds a certificate for exactly that name
+	UName bool `json:"uname,omitempty"`
 }
 
 // deviations of a rogue CLIENT (honest server) and whether they mean "lacks the credential" under a policy
-var clientDevs = []string{"none", "no-cert", "untrusted-ca", "expired", "mismatched-key", "drop-certificate", "drop-certverify", "drop-both", "corrupt-signature", "empty-chain", "substitute-chain", "abandon-then-resume"}
+var clientDevs = []string{"none", "no-cert", "untrusted-ca", "expired", "mismatched-key", "drop-certificate", "drop-certverify", "drop-both", "corrupt-signature", "empty-chain", "substitute-chain", "abandon-then-resume", "ack-instead-of-flight"}
 
 // deviations of a rogue SERVER (honest client)
 var serverDevs = []string{"none", "untrusted-ca", "wrong-name", "expired", "mismatched-key", "drop-certificate", "drop-certverify", "drop-both", "corrupt-signature", "empty-chain", "substitute-chain", "drop-ske", "wrong-psk", "name-is-ip"}
@@ -68,6 +73,10 @@ func mustReject(c *Case) (reject, applicable bool) {
 		switch c.Dev {
 		case "no-cert", "drop-both":
 			return c.Policy == 2 || c.Policy == 4, true
+		case "ack-instead-of-flight":
+			// DTLS 1.3: the client answers the server's flight with one (properly protected) ACK record that
+			// acknowledges every record of it, and never sends Certificate, CertificateVerify or Finished
+			return c.Policy == 2 || c.Policy == 4, c.Ver == 13
 		case "abandon-then-resume":
 			// a history of two connections sharing the server's session store (DTLS 1.2): the first sends its
 			// ClientKeyExchange and nothing else - no Certificate, no Finished - and walks away; the second offers
@@ -165,6 +174,10 @@ func epsFor(c *Case) (cl, sv scen.EP) {
 		case "callback", "verifyconn":
 			cl.RootCA, cl.ServerName, cl.NoVerify = 0, "", true
 		}
+		if c.UName && c.Family == "ecdsa" && c.Verify == "roots" {
+			cl.ServerName = scen.UnderscoreName
+			sv.Cert = "ecdsa-uscore"
+		}
 		switch c.Dev {
 		case "name-is-ip":
 			cl.ServerName = "192.0.2.10"
@@ -200,6 +213,24 @@ func rewrite(c *Case, applied *bool) func(info dtlshandshake.VerifFlightInfo, pk
 			return pkts
 		}
 		var out []*dtlsflight.Packet
+		if c.Dev == "ack-instead-of-flight" {
+			if !info.Is13 || info.Flight != "Flight 5" {
+				return pkts
+			}
+			ack := &protocol.ACK{}
+			for seq := uint64(0); seq < 4; seq++ {
+				ack.Records = append(ack.Records, protocol.RecordNumber{Epoch: 0, SequenceNumber: seq})
+			}
+			for seq := uint64(0); seq < 16; seq++ {
+				ack.Records = append(ack.Records, protocol.RecordNumber{Epoch: 2, SequenceNumber: seq})
+			}
+			*applied = true
+
+			return []*dtlsflight.Packet{{
+				Record:        &recordlayer.RecordLayer{Header: recordlayer.Header{Version: protocol.Version1_2, Epoch: 2}, Content: ack},
+				ShouldEncrypt: true,
+			}}
+		}
 		if c.Dev == "abandon-then-resume" {
 			for _, p := range pkts {
 				if h, ok := p.Record.Content.(*handshake.Handshake); ok && h.Message.Type() == handshake.TypeClientKeyExchange {
@@ -478,7 +509,7 @@ func run(c Case, r *pbt.R) {
 			r.Class("allowed-but-refused")
 		}
 	}
-	r.Key(fmt.Sprintf("%d|%s|%s|%d|%s|%s", c.Ver, c.Rogue, c.Family, c.Policy, c.Verify, c.Dev))
+	r.Key(fmt.Sprintf("%d|%s|%s|%d|%s|%s|%v", c.Ver, c.Rogue, c.Family, c.Policy, c.Verify, c.Dev, c.UName))
 	r.Class(ver + "/rogue-" + who)
 }
 
@@ -530,6 +561,7 @@ func gen(t *rapid.T) Case {
 		c.PSKSuite = rapid.SampledFrom([]uint16{0x00a8, 0xccab, 0xc0a8, 0xc037, 0x00ae}).Draw(t, "psksuite")
 		c.WrongPSK = rapid.IntRange(0, 3).Draw(t, "wrongpsk")
 	}
+	c.UName = rapid.IntRange(0, 3).Draw(t, "uname") == 0
 	if rapid.IntRange(0, 2).Draw(t, "mtu") == 0 {
 		c.MTU = rapid.IntRange(150, 800).Draw(t, "mtuv")
 	}
@@ -560,6 +592,14 @@ func enumGrid(_ string, yield func(Case) bool) {
 						return
 					}
 				}
+			}
+		}
+	}
+	// server names that are not RFC 1123 host names
+	for _, ver := range []int{12, 13} {
+		for _, dev := range []string{"none", "wrong-name", "untrusted-ca", "expired"} {
+			if !yield(Case{Ver: ver, Rogue: "S", Family: "ecdsa", Verify: "roots", Dev: dev, UName: true}) {
+				return
 			}
 		}
 	}
